@@ -100,6 +100,7 @@ def run(ctx):
     ctx.check("getter", "EncodedValue.get_value returns self.value", ok, get_value, "EncodedValue.get_value", "get_value() no longer returns the decoded value")
 
     _check_binding(ctx, m)
+    _check_class_binding(ctx, m)
     _check_printing(ctx, repo, folder, reader_values)
 
 
@@ -251,6 +252,119 @@ def _flatten(v, out):
             _flatten(x, out)
     else:
         out.append(v)
+
+def _check_class_binding(ctx, m):
+    """ClassDefItem.reload is executed on two model class definitions that share one encoded_array_item (dx/d8 intern equal
+    static-value lists: both class_defs carry the same static_values_off), first A, then B, then A again (reload runs again on
+    every rename): after each run the static fields of THAT class must be bound index by index."""
+    repo = ctx.repo
+    folder = Folder(repo)
+    cdef = m.cls("ClassDefItem")
+    cdi = m.cls("ClassDataItem")
+    eai = m.cls("EncodedArrayItem")
+    f = cdef.lookup("reload")
+    ctx.require(f is not None and cdi is not None and eai is not None, "ClassDefItem.reload / ClassDataItem / EncodedArrayItem vanished")
+    ctx.analysed(f)
+    finit = eai.lookup("__init__")
+
+    class _Mark:
+        def __init__(self, name):
+            self.name = name
+
+        def __repr__(self):
+            return self.name
+
+    vals = [_Mark("V%d" % k) for k in range(2)]
+    bound = []
+
+    def method(it, recv, name, args, kwargs, e, func):
+        if isinstance(recv, _Mark):
+            if name == "set_init_value" and args:
+                bound.append((recv, args[0]))
+                return None
+            return Sym("%s.%s" % (recv.name, name))
+        if isinstance(recv, Obj) and recv.name == "encoded_array" and name == "get_values":
+            return list(vals)
+        if isinstance(recv, Obj) and recv.name == "cm":
+            # the model ClassManager answers an item lookup by the offset it is asked for, whatever the accessor is called
+            # (the run is only judged if the class definition ends up holding exactly the model items, see below)
+            offs = [a for a in args if isinstance(a, int) and not isinstance(a, bool)]
+            for a in offs:
+                if a in cm_tables["class_data"]:
+                    return cm_tables["class_data"][a]
+                if a in cm_tables["arrays"]:
+                    return cm_tables["arrays"][a]
+            if name == "get_type_list":
+                return []
+            return Sym(name, *args)
+        return NotImplemented
+
+    def construct(it, cls, args, kwargs, e, func):
+        if cls.name == "EncodedArray":
+            return Obj(None, "encoded_array")
+        return NotImplemented
+
+    cm_tables = {}
+
+    def run(asg):
+        del bound[:]
+        hooks = {"method": method, "construct": construct, "inline_funcs": {"*module*"} | {q.qualname for c in cdi.mro() for q in c.methods.values()}}
+        it = Interp(repo, folder, asg=dict(asg), hooks=hooks)
+        cm = Obj(None, "cm")
+        shared = Obj(eai, "static_values@0x500")
+        if finit is not None:
+            st = StreamV("buff")
+            st.pos = 0x500
+            it.call_function(finit, [st, cm], recv=shared)
+        classes = {}
+        cm_tables["class_data"] = {}
+        cm_tables["arrays"] = {0x500: shared}
+        for nm, off in (("A", 0x100), ("B", 0x200)):
+            cd = Obj(cdi, "class_data_%s" % nm)
+            cd.attrs["static_fields"] = [_Mark("%s.F%d" % (nm, k)) for k in range(2)]
+            cd.attrs["instance_fields"] = []
+            cd.attrs["direct_methods"] = []
+            cd.attrs["virtual_methods"] = []
+            cm_tables["class_data"][off] = cd
+            o = Obj(cdef, "class_def_%s" % nm)
+            o.attrs.update(CM=cm, class_idx=1, superclass_idx=2, interfaces_off=0, source_file_idx=0, annotations_off=0, class_data_off=off,
+                           static_values_off=0x500, interfaces=[], class_data_item=None, static_values=None, annotations_directory_item=None,
+                           name=None, sname=None, access_flags_string=None, access_flags=1, offset=0)
+            classes[nm] = (o, cd)
+        out = []
+        current = {}
+        for nm in ("A", "B", "A"):
+            del bound[:]
+            it.call_function(f, [], recv=classes[nm][0])
+            for fld, v in bound:
+                current[fld] = v
+            o_, cd_ = classes[nm]
+            if o_.attrs.get("class_data_item") is not cd_ or o_.attrs.get("static_values") is not shared:
+                raise AnalysisError("ClassDefItem.reload: the model class definition does not end up holding the model class_data_item / encoded_array_item "
+                                    "(class_data_item=%s, static_values=%s): the way reload() obtains them is outside the model" % (
+                                        show(o_.attrs.get("class_data_item"))[:60], show(o_.attrs.get("static_values"))[:60]))
+            flds = classes[nm][1].attrs["static_fields"]
+            # the state that matters is what each field holds after the step (a class that is not bound a second time keeps its values)
+            out.append((nm, [(x, current[x]) for x in flds if x in current], flds))
+        return out
+
+    res = explore(run)
+    if len(res) != 1:
+        raise AnalysisError("ClassDefItem.reload: abstract run on the two-class model split into %d paths (a condition on model state is undecided)" % len(res))
+    r = res[0][1]
+    if isinstance(r, Raised):
+        ctx.check("class-binding", "two class_defs sharing one encoded_array_item", False, f, "reload raises %s" % r.exc,
+                  "ClassDefItem.reload raises %s on two class definitions that share their static values" % r, node=r.node)
+        return
+    for step, (nm, b, fields) in enumerate(r):
+        want = [(fields[k], vals[k]) for k in range(2)]
+        ok = len(b) == 2 and all(x is w and y is v for (x, y), (w, v) in zip(b, want))
+        inst = "reload #%d (class %s) of two class_defs sharing one encoded_array_item" % (step + 1, nm)
+        ctx.check("class-binding", inst, ok, f, "static values of class %s at step %d" % (nm, step + 1),
+                  "after %s the static fields of class %s are bound as %s, expected %s (two classes with equal static-value lists share one encoded_array_item)" % (inst, nm, b, want),
+                  detail="bindings %s" % want)
+        ctx.count("class_bindings")
+    ctx.floor("class_bindings", 3)
 
 
 def _check_printing(ctx, repo, folder, reader_values):
